@@ -1,1 +1,4 @@
 import Proofs.Cells
+import Proofs.C13
+import Proofs.C16
+import Proofs.C18
